@@ -6,10 +6,11 @@
      cflib/crazyflie/syncLogger.py  SyncLogger (connect, disconnect, __next__, callbacks)
    Definitions only.  Constants and the type table come from Gen_Consts.v, which the harness regenerates
    from the source on every run.  The model follows what the code DOES (exceptions included); add_config
-   is modelled WITH the repair fixes/F05b.patch (default-typed names are resolved once).
+   is modelled WITH the repair fixes/F05b.patch (default-typed names are resolved once) and
+   SyncLogger.connect WITH fixes/F05d.patch (a session starts with an empty queue).
    Tie: harness/props/c05.py runs the real classes on a fake Crazyflie and compares every observation. *)
-From CF Require Export Common.Bytes.
-From CF Require Export C05.Gen_Consts.
+Require Export CF.Common.Bytes.
+Require Export CF.C05.Gen_Consts.
 Open Scope Z_scope.
 
 (* Python exceptions that can escape the modelled methods.  OutOfFuel is a model artefact of the
@@ -514,7 +515,9 @@ Inductive sl_obs := YSample (k : Z) | YStop | YBlocked | YNone | YRaise.
 
 Definition sl_step (s : sl) (e : sl_ev) : sl * sl_obs :=
   match e with
-  | SConnect => if sl_conn s then (s, YRaise) else (mkSl true (sl_queue s), YNone)
+  | SConnect =>
+      (* with fixes/F05d.patch: what a previous session left in the queue is dropped *)
+      if sl_conn s then (s, YRaise) else (mkSl true [], YNone)
   | SSample k =>
       (* the callback is registered only between connect and disconnect *)
       if sl_conn s then (mkSl true (sl_queue s ++ [QSample k]), YNone) else (s, YNone)
